@@ -203,7 +203,7 @@ let judge_pe4 sfx reg (g : gmodel) tiny pol h tol v0 (r : cursor) =
 let judge_pi2 sfx reg (g : gmodel) h tol bps (r : cursor) : int =
   let m = dense_of_g g in
   let q1 = read_qtable r in let q2 = read_qtable r in
-  let fuel = nat_of_int 300 in
+  let fuel = nat_of_int (300 + 4 * int_of_nat g.gS) in
   let cmp site mo iq =
     match mo with
     | None -> disagree "pi_run.fuel" site "model out of fuel (300 evaluations) while the implementation returned"
@@ -236,6 +236,108 @@ let corr_lp site sc ((_, macts), mq) ia iq =
   if not (list_eq Ge sc (flat mq) (flat iq)) || List.length mq <> List.length iq then
     disagree "lp_post.qfunction" site ("impl " ^ str_qs (flat iq) ^ " model " ^ str_qs (flat mq));
   if not (acts_agree Ge sc mq macts ia) then disagree "lp_post.actions" site ("impl " ^ str_nats ia ^ " model " ^ str_nats macts)
+
+(* ---------- mutation sequences: one model object mutated through its setters under long-lived solvers ---------- *)
+let judge_mut reg rs s a gamma0 (c : cursor) (r : cursor) : bool * string =
+  let k = next_int c in
+  let h = next_int c in
+  let tol = next_q c in
+  let hpi = next_int c in
+  let bps = next_int c in
+  let v0 = next_qs c in
+  let t0 = read_t3 c s a in let r0 = read_t3 c s a in
+  let g0 = g_of_tables (nat_of_int s) (nat_of_int a) t0 r0 gamma0 in
+  let md = ref (dense_of_g g0) in
+  let ms = ref (sparse_of_g g0) in
+  let n = nat_of_int h in
+  let fuel = nat_of_int (300 + 4 * s) in
+  let call i =
+    let sfx = "@mut" ^ string_of_int i in
+    let pol = chunks a (List.init (s * a) (fun _ -> next_q c)) in
+    let bpd = read_pe_block r in let bps_ = read_pe_block r in
+    let bvd = read_vi_block r in let bvs = read_vi_block r in
+    let qd = read_qtable r in let qs = read_qtable r in
+    let ld = read_lp_block r in let ls = read_lp_block r in
+    let one_pe site (m : mdp) b =
+      oracle_pe site reg m pol (ref_pe m pol v0) h tol v0 b;
+      corr_pe site reg (scale_of m b.pv) (pe_run m pol n tol v0) b in
+    let one_vi site (m : mdp) b =
+      oracle_vi site reg m (ref_vi m v0) h tol v0 b;
+      corr_vi site reg (scale_of m b.v) (vi_run m n tol v0) b in
+    let one_pi site (m : mdp) iq =
+      match pi_run m (nat_of_int hpi) q_zero fuel with
+      | None -> disagree "pi_run.fuel" site "model out of fuel while the implementation returned"
+      | Some (iters, mq) ->
+        let exact = reg = Dy && 12 + int_of_nat iters * hpi * bps <= 52 in
+        let sc = q_add (q_maxabs (flat mq)) (q_maxabs (flat m.r)) in
+        if not (list_eq (if exact then Dy else Ge) sc (flat mq) (flat iq)) || List.length mq <> List.length iq then
+          disagree "pi_run.qfunction" site ("impl " ^ str_qs (flat iq) ^ " model " ^ str_qs (flat mq)) in
+    let one_lp site (m : mdp) (v, acts, qf) =
+      let _ = oracle_lp site m (v, acts, qf) in
+      corr_lp site (scale_of m v) (lp_post m v) acts qf in
+    (* O and C per call, against the tables the object holds at this call *)
+    one_pe ("PolicyEvaluation<Model>" ^ sfx) !md bpd;
+    one_pe ("PolicyEvaluation<SparseModel>" ^ sfx) !ms bps_;
+    one_vi ("ValueIteration<Model>" ^ sfx) !md bvd;
+    one_vi ("ValueIteration<SparseModel>" ^ sfx) !ms bvs;
+    one_pi ("PolicyIteration<Model>" ^ sfx) !md qd;
+    one_pi ("PolicyIteration<SparseModel>" ^ sfx) !ms qs;
+    one_lp ("LinearProgramming<Model>" ^ sfx) !md ld;
+    one_lp ("LinearProgramming<SparseModel>" ^ sfx) !ms ls in
+  call 0;
+  let opsall = ref "" in
+  for i = 1 to k do
+    let ops = next c in
+    opsall := !opsall ^ ops;
+    String.iter (fun ch ->
+        match ch with
+        | 'T' -> let t = read_t3 c s a in md := obj_set_t !md t; ms := sobj_set_t !ms t
+        | 'R' -> let rw = read_t3 c s a in md := obj_set_r !md rw; ms := sobj_set_r !ms rw
+        | 'D' -> let d = next_q c in md := obj_set_d !md d; ms := obj_set_d !ms d
+        | _ -> failwith "mut: unknown op") ops;
+    call i
+  done;
+  (h > 0 && k > 0, "mut." ^ rs ^ "." ^ (if String.contains !opsall 'R' then "R" else "") ^ (if String.contains !opsall 'T' then "T" else "") ^ (if String.contains !opsall 'D' then "D" else ""))
+
+(* ---------- long corridors (oracle only: Howard PI needs about n improvement rounds) ---------- *)
+let judge_chain s a gamma (c : cursor) (r : cursor) : bool * string =
+  let tol = next_q c in
+  let h = next_int c in
+  let pay = Array.of_list (next_qs c) in
+  let n = s - 1 in
+  if a <> 2 || Array.length pay + 1 <> n then failwith "chain: bad shape";
+  let unit_row j = List.init s (fun i -> if i = j then q_one else q_zero) in
+  let p0 = List.init s (fun i -> if i + 1 < n then unit_row n else unit_row i) in
+  let p1 = List.init s (fun i -> if i + 1 < n then unit_row (i + 1) else unit_row i) in
+  let rw = List.init s (fun i -> if i + 1 < n then [pay.(i); q_zero] else if i = n - 1 then [q_one; q_one] else [q_zero; q_zero]) in
+  let m = mk_mdp s a [p0; p1] rw gamma in
+  let bvi = read_vi_block r in
+  let qpi = read_qtable r in let qpis = read_qtable r in
+  let lpb = read_lp_block r in
+  let sc = scale_of m bvi.v in
+  let sl = slack Ge sc in
+  oracle_vi "ValueIteration<Model>[chain]" Ge m (fun _ -> failwith "chain: no exact reference") h tol [] bvi;
+  if q_lt tol bvi.var then oracle_fail "vi_residual" "ValueIteration<Model>[chain]" "did not converge within the horizon given by the generator";
+  let e_vi = q_add (q_mul m.gam bvi.var) sl in
+  let chk_pi site qf =
+    let v = List.map maxl qf in
+    let acts = List.map (fun row -> fst (argmax row)) qf in
+    let tie = q_mul (q_of_ints 1 10000000000) (q_add q_one sc) in
+    let e_pi = q_add (q_add (q_mul m.gam tol) sl) tie in
+    if not (check_mdp_solution m v qf acts e_pi e_pi) then begin
+      if not (residual_leb m v e_pi) then
+        oracle_fail "pi_fixpoint" site ("Bellman residual of max_a Q " ^ string_of_q (dist v (t_op m v)) ^ " exceeds gamma*tol " ^ string_of_q e_pi);
+      oracle_fail "pi_fixpoint" site "returned Q is not consistent with its own greedy values"
+    end;
+    if not (check_cross m bvi.v v e_vi e_pi) then
+      oracle_fail "approx_fixpoints_close" site "VI and PI values further apart than (e1+e2)/(1-gamma)" in
+  chk_pi "PolicyIteration<Model>[chain]" qpi;
+  chk_pi "PolicyIteration<SparseModel>[chain]" qpis;
+  let e_lp = oracle_lp "LinearProgramming<Model>[chain]" m lpb in
+  let (lv, _, _) = lpb in
+  if not (check_cross m bvi.v lv e_vi e_lp) then
+    oracle_fail "approx_fixpoints_close" "LinearProgramming<Model>[chain]" "VI and LP values further apart than (e1+e2)/(1-gamma)";
+  (true, "chain")
 
 let judge_seq reg rs (c : cursor) (r : cursor) : bool * string =
     (* one solver object of each kind reused over k models and all representations; every answer is
@@ -287,6 +389,8 @@ let judge _id (c : cursor) (r : cursor) : bool * string =
   if kind = "seq" then judge_seq reg rs c r else
   let s = next_int c in let a = next_int c in
   let gamma = next_q c in
+  if kind = "mut" then judge_mut reg rs s a gamma c r else
+  if kind = "chain" then judge_chain s a gamma c r else
   match kind with
   | "vi" | "pe" ->
     let h = next_int c in
